@@ -140,9 +140,14 @@ var vC15Progs = []struct {
 	{"d + d", "d4 + 2", 2, 12},
 	{"func fn1() { d }; fn1() + d", "2d3", 2, 12},
 	{"&v1 = d6; func fn1() { v1 + v1 }; fn1()", "", 2, 12},
+	// a default-sides expression that depends on state changed between two bare dice
+	{"sides = 4; v1 = 2d; sides = 20; v1 + 2d", "sides ?? 100", 4, 48},
+	{"v1 = d; sides = 3; v1 + d + d", "sides ?? 10", 3, 16},
+	{"sides = 6; func fn1() { sides = 2; d }; d + fn1() + d", "sides ?? 8", 3, 14},
+	{"d20min5 + d20 + d6max3", "", 7, 43},
 }
 
-//vh:prop=C15 tiers=quick,thorough sigkeys=prog solver=z3-new/int summaries=Roll:roll-contract unwind=24 unwind_ok=1 budget_s=1200 bounds="15 programs whose value is monotone in its dice (sums and products with non-negative constants of XdY with keep/min modifiers, Fate, nested dice counts), with the dice at top level, inside functions (also nested and called from computed values), computed values, a loop, a conditional and the default-sides expression: the min-mode and max-mode runs consume no generator output, leave the generator state unchanged and give the expected attained bounds; the random-mode value (dice = Roll-contract symbols) lies between them"
+//vh:prop=C15 tiers=quick,thorough sigkeys=prog solver=z3-new/int summaries=Roll:roll-contract unwind=24 unwind_ok=1 budget_s=1200 bounds="19 programs whose value is monotone in its dice (sums and products with non-negative constants of XdY with keep/min modifiers, Fate, nested dice counts), with the dice at top level, inside functions (also nested and called from computed values), computed values, a loop, a conditional and the default-sides expression: the min-mode and max-mode runs consume no generator output, leave the generator state unchanged and give the expected attained bounds; the random-mode value (dice = Roll-contract symbols) lies between them"
 func VH_C15_vm() {
 	k := vChoice("prog", len(vC15Progs))
 	pr := vC15Progs[k]
